@@ -810,6 +810,7 @@ func runC02(p *an.Prog, r *an.Run, tier string) {
 		if du.CallTo(func(f *types.Func) bool { return an.IsMethod(f, pkgEthnode, "Peers", "IDs") }) == nil {
 			bad = append(bad, "peer ids do not come from ethnode.Peers.IDs")
 		}
+		bad = append(bad, reportedIDsComplete(p, ua[1])...)
 		if reqPrm == nil || !du.HasParam(reqPrm) || !du.HasFieldNamed("UpdateRequest", "PeerInfo") {
 			bad = append(bad, "peer ids do not derive from the request's PeerInfo")
 		}
@@ -1622,4 +1623,55 @@ func checkMinImmutable(p *an.Prog, r *an.Run) {
 	}
 	r.Floor("bigint-mutator-calls", n, 10)
 	r.Check(len(bad) == 0, "min-immutable", "repo", token.NoPos, "nothing computes in place on the configured minimum", "%s", strings.Join(dedup(bad), "; "))
+}
+
+// reportedIDsComplete: the id list handed to the store is the list Peers.IDs() returned, as a whole — not a prefix,
+// sample or filtered copy of it (a bound counted by position drops registered, live, reported peers behind unknown ids).
+func reportedIDsComplete(p *an.Prog, arg ssa.Value) []string {
+	v := p.Resolve(arg)
+	for {
+		switch x := v.(type) {
+		case *ssa.ChangeType:
+			v = x.X
+			continue
+		case *ssa.Convert:
+			v = x.X
+			continue
+		}
+		break
+	}
+	if c, ok := v.(*ssa.Call); ok {
+		if an.IsMethod(an.CallObj(c), pkgEthnode, "Peers", "IDs") {
+			return nil
+		}
+		// through a repo helper: it must hand on the IDs() result itself on every return
+		if h := c.Common().StaticCallee(); h != nil && p.InRepo(h) && len(h.Blocks) > 0 {
+			okAll := true
+			nRet := 0
+			an.AllInstrs(h, func(in ssa.Instruction) {
+				ret, ok := in.(*ssa.Return)
+				if !ok || len(ret.Results) == 0 {
+					return
+				}
+				nRet++
+				rv := an.RetResults(ret)[0]
+				for {
+					if ct, ok := rv.(*ssa.ChangeType); ok {
+						rv = ct.X
+						continue
+					}
+					break
+				}
+				rc, isCall := rv.(*ssa.Call)
+				if !isCall || !an.IsMethod(an.CallObj(rc), pkgEthnode, "Peers", "IDs") {
+					okAll = false
+				}
+			})
+			if okAll && nRet > 0 {
+				return nil
+			}
+			return []string{"the id list handed to the store is rebuilt by " + an.FuncName(h) + " (filtered, bounded or re-sliced) instead of being the reported list as a whole: a registered, live, reported peer can be left out"}
+		}
+	}
+	return []string{"the id list handed to the store is not the result of Peers.IDs() as a whole"}
 }
